@@ -23,6 +23,7 @@ type Case struct {
 	Order     map[*Node][]string
 	Wrapped   bool
 	Shape     string
+	ExecFmt   *string // prefix the execution's formatter puts before the code (nil: no WithIssueFormatter)
 	CtxOK     bool
 	Repeats   []string // canonical renderings of repeated runs (C09 oracle)
 	dest0v    reflect.Value
@@ -206,6 +207,11 @@ func NewCase(g *Gen, id int, forceValidate *bool) *Case {
 	if g.R.P(50) {
 		ctxVals["k1"] = fmt.Sprintf("v%d", g.R.Intn(100))
 		opts = append(opts, z.WithCtxValue("k1", ctxVals["k1"]))
+	}
+	if g.R.P(12) {
+		tag := fmt.Sprintf("F%d:", g.R.Intn(100))
+		c.ExecFmt = &tag
+		opts = append(opts, z.WithIssueFormatter(func(i *z.ZogIssue, _ z.Ctx) { i.SetMessage(tag + i.Code) }))
 	}
 
 	var dest0 reflect.Value
@@ -428,9 +434,13 @@ func (c *Case) Coq() string {
 	} else {
 		data = "(DVal " + CoqIVal(*c.In) + ")"
 	}
-	return fmt.Sprintf("  (%s\n   EC %d %s %s\n     %s\n     %s %s %s %s %s\n     %s)",
+	ef := "None"
+	if c.ExecFmt != nil {
+		ef = "(Some " + CoqStr(*c.ExecFmt) + ")"
+	}
+	return fmt.Sprintf("  (%s\n   EC %d %s %s\n     %s\n     %s %s %s %s %s %s\n     %s)",
 		c.oracles(), c.ID, mode, c.schemaCoq(), data, c.Dest0,
-		CoqBool(c.Known), CoqBool(c.Collide), CoqBool(c.CtxOK && c.TypesOK), CoqBool(c.RepeatsAgree()), CoqObserved(&c.Obs, c.Schema))
+		CoqBool(c.Known), CoqBool(c.Collide), CoqBool(c.CtxOK && c.TypesOK), CoqBool(c.RepeatsAgree()), ef, CoqObserved(&c.Obs, c.Schema))
 }
 
 func (c *Case) schemaCoq() string {
